@@ -216,6 +216,11 @@ def newlineCheck (db : Tags.UnicodeDB) (e : Entry) (t : MTag) (bit : Str → Boo
 def leadingLf (s : Str) : Bool := startsWith [10] s
 def trailingLf (s : Str) : Bool := endsWith [10] s
 
+/-- the `conflict-marker-in-translation` call for a found marker -/
+def markerTag (db : Tags.UnicodeDB) (e : Entry) : Option Str → List Emit
+  | some m => [tagR db e tplPlain .conflictMarkerInTranslation [.str m]]
+  | none => []
+
 /-- the first translation with a marker line: tag, break -/
 def markerCheck (env : Env) (e : Entry) : List Str → List Emit
   | [] => []
@@ -224,40 +229,49 @@ def markerCheck (env : Env) (e : Entry) : List Str → List Emit
     | some m => [tagR env.flag.db e tplPlain .conflictMarkerInTranslation [.str m]]
     | none => markerCheck env e rest
 
+/-- `[message.msgid_plural]` if there is one -/
+def Entry.pluralList (e : Entry) : List Str :=
+  match e.msgidPlural with
+  | some p => [p]
+  | none => []
+
+/-- `[message.msgstr]` if `has_msgstr` -/
+def Entry.msgstrList (e : Entry) : List Str := if e.hasMsgstr then [e.msgstr.getD []] else []
+
+/-- the first `strings` list: msgid_plural, and unless fuzzy the msgstr and all the forms -/
+def consideredStrings (e : Entry) (fuzzy : Bool) : List Str :=
+  e.pluralList ++ (if !fuzzy then e.msgstrList ++ (if e.hasMsgstrPlural then e.forms else []) else [])
+
+/-- the second `strings` list: msgstr, then the forms in key order -/
+def translationStrings (e : Entry) : List Str := e.msgstrList ++ (if e.hasMsgstrPlural then e.formsSorted else [])
+
 /-- the body of `for message in ctx.file` for an entry that is neither obsolete nor a header entry -/
 def checkMessage (env : Env) (ctx : Ctx) (st : MSt) (e : Entry) : MSt × List Emit :=
   let db := env.flag.db
-  let (info, flagOut) := checkMessageFlags env.flag e
-  let fmtOut := checkMessageFormats env ctx e info
+  let fl := checkMessageFlags env.flag e                   -- flags = self._check_message_flags(message)
+  let info := fl.1
+  let fmtOut := checkMessageFormats env ctx e info          -- self._check_message_formats(ctx, message, flags)
   let key := (e.msgid, e.msgctxt)
-  let cnt := (assocGet key st.counter).getD 0 + 1
-  let counter := assocSet key cnt st.counter
+  let cnt := (assocGet key st.counter).getD 0 + 1           -- msgid_counter[…] += 1
   let dupOut := if cnt = 2 then [tagR db e tplPlain .duplicateMessageDefinition []] else []
-  let hasMsgstr := e.hasMsgstr
-  let hasMsgstrPlural := e.hasMsgstrPlural
   let tplOut :=
-    if ctx.isTemplate && (hasMsgstr || hasMsgstrPlural) then [tagR db e tplPlain .translationInTemplate []] else []
+    if ctx.isTemplate && (e.hasMsgstr || e.hasMsgstrPlural) then [tagR db e tplPlain .translationInTemplate []] else []
   let hasPrevious := e.prevMsgctxt.isSome || e.prevMsgid.isSome || e.prevMsgidPlural.isSome
   let strayOut := if hasPrevious && !info.fuzzy then [tagR db e tplPlain .strayPreviousMsgid []] else []
-  let strings₁ : List Str :=
-    (match e.msgidPlural with | some p => [p] | none => [])
-      ++ (if !info.fuzzy then
-            (if hasMsgstr then [e.msgstr.getD []] else []) ++ (if hasMsgstrPlural then e.forms else [])
-          else [])
+  let strings₁ := consideredStrings e info.fuzzy
   let nlOut := newlineCheck db e .inconsistentLeadingNewlines leadingLf strings₁
     ++ newlineCheck db e .inconsistentTrailingNewlines trailingLf strings₁
-  let strings : List Str :=
-    (if hasMsgstr then [e.msgstr.getD []] else []) ++ (if hasMsgstrPlural then e.formsSorted else [])
-  let (found, ucOut) :=
+  let strings := translationStrings e
+  let uc :=
     if ctx.hasEncoding then
       unusualLoop env e (env.findUnusual e.msgid ++ env.findUnusual (e.msgidPlural.getD [])) st.found strings
     else (st.found, [])
   let tailOut :=
     if !info.fuzzy then
       markerCheck env e strings
-        ++ (if hasMsgstrPlural && !e.forms.all (!·.isEmpty) then [tagR db e tplPlain .partiallyTranslatedMessage []] else [])
+        ++ (if e.hasMsgstrPlural && !e.forms.all (!·.isEmpty) then [tagR db e tplPlain .partiallyTranslatedMessage []] else [])
     else []
-  (⟨found, counter⟩, flagOut ++ fmtOut ++ dupOut ++ tplOut ++ strayOut ++ nlOut ++ ucOut ++ tailOut)
+  (⟨uc.1, assocSet key cnt st.counter⟩, fl.2 ++ fmtOut ++ dupOut ++ tplOut ++ strayOut ++ nlOut ++ uc.2 ++ tailOut)
 
 /-- `for message in ctx.file:` — obsolete and header entries are skipped -/
 def messageLoop (env : Env) (ctx : Ctx) : MSt → List Entry → MSt × List (List Emit)
